@@ -30,8 +30,10 @@ SIG_LMP_SAMELINE = "C19:lammps:substring-on-a-requested-line"
 # behaviour of the UNCHANGED /repo that a predicate rejects and that is reported but not yet a recorded finding:
 # a failure with one of these signatures is written into the evidence file instead of being a VIOLATION.
 # (SIG_LMP_SAMELINE was pending until /repo 48a6c1e repaired it; it is a recorded, fixed finding now.)
+# SIG_MDP_DASH was pending until 2026-09-30; it is an OPEN entry of known_findings.json now: reported through ctx.fail
+# (-> KNOWN-FINDING) when the real output shows it; the model has the asIs | repaired variants (c19_variant.py)
 SIG_MDP_DASH = "C19:mdp:dash-underscore-key"
-PENDING_FINDINGS = {SIG_MDP_DASH}
+PENDING_FINDINGS: set = set()
 
 
 def _imports():
@@ -125,15 +127,25 @@ def kw_of(line):
     return before, before.strip()
 
 
-def mdp_dash_predicate(tmpl, settings):
+def dash_norm(k):
+    return k.replace("-", "_")
+
+
+def mdp_dash_predicate(tmpl, settings, out):
     """GROMACS reads '-' and '_' in a parameter name alike (`gen_vel` = `gen-vel`; the engine itself requests `gen_vel`,
     `ref-t`, `gen-temp`).  The editor compares names literally: a requested key that the template spells the other way is
-    not edited but appended, so the file defines the parameter twice.  PENDING (reported, not a recorded finding)."""
-    seen = {kw_of(l)[1] for l in lines_nl(tmpl)} - {None}
-    norm = {k.replace("-", "_") for k in seen}
+    not edited but appended, so the file defines the parameter twice.  OPEN finding C19:mdp:dash-underscore-key.  Judged on
+    the real OUTPUT: the requested `key = value` line is among the lines appended after the template's lines although the
+    template has the parameter under the other spelling (a tree that normalises the names appends nothing: silent)."""
+    if not isinstance(out, str) or out.startswith("err:"):
+        return None
+    tl = lines_nl(tmpl)
+    seen = {kw_of(l)[1] for l in tl} - {None}
+    norm = {dash_norm(k) for k in seen}
+    tail = lines_nl(out)[len(tl):]
     for k in settings:
-        if k and k not in seen and k.replace("-", "_") in norm:
-            other = sorted(x for x in seen if x.replace("-", "_") == k.replace("-", "_"))
+        if k and k not in seen and dash_norm(k) in norm and f"{k} = {settings[k]}\n" in tail:
+            other = sorted(x for x in seen if dash_norm(x) == dash_norm(k))
             return (SIG_MDP_DASH, f"requested {k!r} is appended although the template has {other!r} (the same GROMACS "
                     "parameter): the edited file defines it twice and the template's entry keeps its old value")
     return None
@@ -149,11 +161,56 @@ def mdp_clean_settings(settings):
 
 def mdp_predicates(box, EngineBase, tmpl, settings, out=None):
     """the property on the real code. Returns (signature, message) or None.
-    Stated for well-formed settings (keys without '=', newline, outer blanks; values without newline)."""
+    Stated for well-formed settings (keys without '=', newline, outer blanks; values without newline).
+    Which template entry a requested key names is the one point the open finding C19:mdp:dash-underscore-key is about:
+    the predicates are evaluated with names compared literally (the code as it is) and, if that fails, with names
+    compared up to '-'/'_' (the repaired variant: the template's line is rewritten, nothing is appended); the code
+    passes when it satisfies either reading — the finding itself is reported by mdp_dash_predicate."""
     if out is None:
         out = mdp_code(box, EngineBase, tmpl, settings)
     if not isinstance(out, str) or out.startswith("err:"):
         return ("C19:mdp:raises", f"_modify_input raised {out}")
+    r = _mdp_predicates(box, EngineBase, tmpl, settings, out, lambda k: k)
+    if r is None:
+        return None
+    if len({dash_norm(k) for k in settings}) == len(settings):
+        if _mdp_predicates(box, EngineBase, tmpl, settings, out, dash_norm) is None:
+            return None
+    elif out == mdp_repaired_ref(tmpl, settings):
+        # the request names one GROMACS parameter twice (`ref-t` and `ref_t`): what it asks for depends on how names are
+        # compared — with names read as GROMACS reads them the first of the two names the entry
+        return None
+    return r
+
+
+def mdp_repaired_ref(tmpl, settings):
+    """the output of the repaired variant (names compared up to '-'/'_', the template's spelling kept; Lean
+    `modifyInputR`) — only used for requests that name one parameter under both spellings"""
+    wanted = {}
+    for k in settings:
+        wanted.setdefault(dash_norm(k), k)
+    out, written, last = [], set(), ""
+    for line in lines_nl(tmpl):
+        before, kw = kw_of(line)
+        last = line
+        if kw is not None:
+            if dash_norm(kw) in wanted:
+                last = f"{before}= {settings[wanted[dash_norm(kw)]]}\n"
+            written.add(dash_norm(kw))
+        out.append(last)
+    for k, v in settings.items():
+        if dash_norm(k) not in written:
+            if last and not last.endswith("\n"):
+                out.append("\n")
+            last = f"{k} = {v}\n"
+            out.append(last)
+    return "".join(out)
+
+
+def _mdp_predicates(box, EngineBase, tmpl, settings, out, nrm):
+    by_norm = {}
+    for k in settings:
+        by_norm.setdefault(nrm(k), k)
     tl = lines_nl(tmpl)
     ol = lines_nl(out)
     seen = set()
@@ -161,12 +218,12 @@ def mdp_predicates(box, EngineBase, tmpl, settings, out=None):
     for line in tl:
         before, kw = kw_of(line)
         if kw is not None:
-            seen.add(kw)
-        if kw is not None and kw in settings:
-            want.append(f"{before}= {settings[kw]}\n")
+            seen.add(nrm(kw))
+        if kw is not None and nrm(kw) in by_norm:
+            want.append(f"{before}= {settings[by_norm[nrm(kw)]]}\n")
         else:
             want.append(line)
-    app = [f"{k} = {v}\n" for k, v in settings.items() if k not in seen]
+    app = [f"{k} = {v}\n" for k, v in settings.items() if nrm(k) not in seen]
     # the property: appended settings are entries of their own — if the last template line lacks its newline
     # it is completed before the first appended setting (a regression of repair eaf64e1 glues them together)
     glued = bool(app) and bool(want) and not want[-1].endswith("\n")
@@ -185,10 +242,11 @@ def mdp_predicates(box, EngineBase, tmpl, settings, out=None):
             v = str(v)
             if "=" in v:
                 continue
-            if r1.get(k) != v.strip():
-                return (sig or "C19:mdp:requested-value-not-read-back", f"{k!r} reads back as {r1.get(k)!r}, wanted {v.strip()!r}")
+            back = [r1[x] for x in r1 if nrm(x) == nrm(k)]
+            if not back or any(b != v.strip() for b in back):
+                return (sig or "C19:mdp:requested-value-not-read-back", f"{k!r} reads back as {back!r}, wanted {v.strip()!r}")
         for k in set(r0) | set(r1):
-            if k in settings:
+            if nrm(k) in by_norm:
                 continue
             if r0.get(k) != r1.get(k):
                 return (sig or "C19:mdp:unrequested-entry-changed", f"{k!r}: {r0.get(k)!r} became {r1.get(k)!r}")
@@ -562,9 +620,22 @@ def _run(ctx, box, EngineBase, write_for_run):
         outA = ctx.driver([f"mdpmodifyA {hexs(t)} {sett_tokens(s)}" for (t, s) in allc])
         outD = ctx.driver([f"mdpread {hexs(c)}" if isinstance(c, str) and not c.startswith("err:") else "mdpread -"
                            for c in code[: len(cases)]])
+        # asIs | repaired variants of the open finding C19:mdp:dash-underscore-key (c19_variant.py): the code may agree
+        # with the repaired model where the two differ; `agree` (and its regression naming) judges everything else
+        from props import c19_variant as V
+        outR = ctx.driver([f"mdpmodifyR {hexs(t)} {sett_tokens(s)}" for (t, s) in allc])
+        vst = V._state(ctx)[SIG_MDP_DASH]
         for k, (t, s) in enumerate(allc):
+            now, rep = unhex(outN[k]), unhex(outR[k])
+            if now != rep:
+                vst["models_differ"] += 1
+                if code[k] == now:
+                    vst["asIs"] += 1
+                elif code[k] == rep:
+                    vst["repaired"] += 1
+                    continue
             agree(ctx, {"part": PART, "fn": "_modify_input", "template": t, "settings": {a: str(b) for a, b in s.items()}},
-                  code[k], unhex(outN[k]), unhex(outA[k]), st)
+                  code[k], now, unhex(outA[k]), st)
         for k in range(len(cases)):
             if code_rd[k] is None or not isinstance(code_rd[k], dict):
                 continue
@@ -582,7 +653,7 @@ def _run(ctx, box, EngineBase, write_for_run):
         r = mdp_predicates(box, EngineBase, t, s, out=code[k])
         if r is not None:
             note_fail(fails, r, {"part": PART, "fn": "mdp", "template": t, "settings": {a: str(b) for a, b in s.items()}})
-        r = mdp_dash_predicate(t, s)
+        r = mdp_dash_predicate(t, {a: str(b) for a, b in s.items()}, code[k])
         if r is not None:
             note_fail(fails, r, {"part": PART, "fn": "mdp-dash", "template": t, "settings": {a: str(b) for a, b in s.items()}})
         if k % 4001 == 0:
@@ -675,8 +746,7 @@ def replay_part(ctx, obj):
         if r.get("fn") == "mdp":
             res = mdp_predicates(box, EngineBase, r["template"], r["settings"])
         elif r.get("fn") == "mdp-dash":
-            print("replay: pending finding (not counted):", mdp_dash_predicate(r["template"], r["settings"]))
-            res = None
+            res = mdp_dash_predicate(r["template"], r["settings"], mdp_code(box, EngineBase, r["template"], r["settings"]))
         elif r.get("fn") == "lammps-word":
             res = lmp_word_predicate(r["template"], r["settings"],
                                      wfr_code(box, write_for_run, r["template"], r["settings"]))
